@@ -226,21 +226,29 @@ class C17(Check):
                  'against the library driven by an independent '
                  'flag->keyword model')
     rule = ('cases = 24 tables (int/float/bool/nullable-int/date/datetime/'
-            'string/categorical columns, nulls, unicode values and names, '
-            'zero rows, 22 rows) x {csv, parquet} x discover {8 flag sets} x '
-            'input {file, stdin} x output {file, -, omitted}; verify {all '
-            'sets of <=2 (quick) / <=3 (thorough) of 6 short flags + 7 long '
-            'forms} x constraints {violated hand-made set, set just '
-            'discovered by the CLI} x {explicit, implied <stem>.tdda} x input '
-            '{file, stdin}; detect {all sets of <=1 of 12 flags on every '
-            'table, <=2 (quick) / <=3 (thorough) on the 8 core tables} x '
-            'output {csv, parquet, -, omitted}; the error menu (missing '
-            'input, missing/underivable constraints, 3 unknown flags in 2 '
-            'positions, 2 contradictory pairs, each alone and with one valid '
-            'flag); a defined subset re-run as real subprocesses. '
-            'non-trivial = the invocation is an error-menu entry, or the '
-            'library result it is compared with carries at least one '
-            'constraint verdict / discovered constraint')
+            'string-dtype/categorical/object-string columns, nulls, unicode '
+            'values and column names, names colliding with detection columns, '
+            'zero rows, 22 rows, inf, 2**62) x {csv, parquet} x: discover {8 '
+            'flag sets} x input {file, stdin} x output {file, -, omitted}, '
+            'each followed by `tdda verify` of the same file against what was '
+            'written; verify {every set of <=2 (quick) / <=3 (thorough) of 6 '
+            'short flags, 7 long forms} x constraints {hand-derived violated '
+            'set, set just discovered by the CLI} x {explicit, implied '
+            '<stem>.tdda} x input {file, stdin}; detect {every set of <=1 of '
+            '12 (thorough 19) flags on every table, every pair on 8 core '
+            'tables (thorough: all tables, and every triple on the core '
+            'tables)} x output {csv, parquet, -, omitted} x constraints '
+            '{violated, own, implied} x input {file, stdin}; error menu '
+            '(missing input; missing / implied-missing / underivable '
+            'constraints; 3 unknown flags before and after the positionals; '
+            'detect-only flags given to verify/discover; 2 contradictory '
+            'pairs in both orders) alone and with one valid flag; a defined '
+            'subset re-run as real `python -m tdda.constraints.console` '
+            'subprocesses; thorough adds unicode/space and absolute file '
+            'names, flags after the positionals, stale output files. '
+            'non-trivial = an error-menu entry, or a valid invocation whose '
+            'library reference carries at least one discovered constraint / '
+            'constraint verdict')
     assumptions = [
         'pinned pandas 3.0.6 / pyarrow 25: text columns read from CSV (and '
         'object-string columns read from parquet) get dtype `str`, which '
@@ -262,6 +270,9 @@ class C17(Check):
         'must fail too"; the defect behind it belongs to C01/C06',
         'an exception escaping main_with_argv counts as exit status 1 (what '
         'the interpreter does); bound to real subprocesses in layer subproc',
+        'a documented, valid invocation must end with status 0 (clause '
+        'valid-invocation-succeeds): read from the second sentence of the '
+        'statement, which reserves non-zero status for erroneous invocations',
         'file names: data.<ext> in the sandbox cwd (thorough: also a name '
         'with a space and a non-ASCII letter, and absolute paths)',
     ]
@@ -371,7 +382,7 @@ class C17(Check):
             k = 3 if layer == 'detect3' else 2
             tabs = [t for t in T if t not in CORE] if layer == 'detect2all' else CORE
             outs = {'detect2': ('csv',), 'detect2+': ('parquet', '-'),
-                    'detect2all': ('csv', '-'), 'detect3': ('csv',)}[layer]
+                    'detect2all': ('csv', '-'), 'detect3': ('csv', '-')}[layer]
             for t in tabs:
                 for fmt in F:
                     for fs in subsets(DETECT_OWN + DETECT_SHARED, k):
